@@ -27,6 +27,7 @@ import (
 	"go.amzn.com/lambda/rapidcore/env"
 	supvmodel "go.amzn.com/lambda/supervisor/model"
 	"go.amzn.com/lambda/telemetry"
+	"go.amzn.com/lambda/vhook"
 
 	"github.com/google/uuid"
 	log "github.com/sirupsen/logrus"
@@ -256,6 +257,7 @@ func (c *rapidContext) watchEvents(events <-chan supvmodel.Event) {
 		// When their are other event types then we would need to be selective,
 		// about what we send to handleShutdownEvent().
 		c.shutdownContext.handleProcessExit(*termination)
+		vhook.At("watch.exitRecorded")
 		c.registrationService.CancelFlows(err)
 	}
 }
@@ -697,6 +699,7 @@ func reinitialize(execCtx *rapidContext) {
 	execCtx.renderingService.SetRenderer(nil)
 	execCtx.initDone = false
 	execCtx.registrationService.Clear()
+	vhook.At("reinit.betweenClears")
 	execCtx.initFlow.Clear()
 	execCtx.invokeFlow.Clear()
 	if execCtx.telemetryAPIEnabled {
